@@ -559,6 +559,8 @@ def load_known_findings():
 
 TRANSLATED = {
     "C02": ["tr_important.py -> Gen/GenImportant.v (prefer_important, is_marked_important, remove_important)"],
+    "C03": ["tr_facts.py -> Gen/GenFactsBuild.v (execute_run_steps, plan_branch)",
+            "tr_facts.py -> Gen/GenFactsLaunch.v (launch_passes_cmdline_env_cwd, popen_gets_what_run_got, run_env_is_expanded_configured_env)"],
     "C04": ["tr_termination.py -> Gen/GenTermination.v (TerminationCheck)",
             "tr_classify.py -> Gen/GenClassify.v (rc_classify and the shape of the branches of _generate_data_point / _eval_output)"],
     "C05": ["tr_regex.py -> Gen/GenRegex.v (every re.compile of rebench/interop, parsed with CPython's re._parser)"],
